@@ -19,6 +19,8 @@ import (
 	"context"
 	"encoding/hex"
 	"fmt"
+	"io"
+	"io/ioutil"
 	"net"
 
 	"strconv"
@@ -72,11 +74,9 @@ func (s *memcachedService) Handle(ctx context.Context, conn net.Conn) error {
 		if err != nil {
 			break
 		}
-		// Strip trailing \r\n
-		sz := len(command)
-		if sz >= 2 {
-			command = command[:sz-2]
-		}
+		// Strip the line terminator: \r\n, or a bare \n
+		command = bytes.TrimSuffix(command, []byte("\n"))
+		command = bytes.TrimSuffix(command, []byte("\r"))
 
 		s.ch.Send(event.New(
 			EventOptions,
@@ -178,20 +178,25 @@ END\r\n
 				return fmt.Errorf("Byte count is not a number: %s", string(command))
 			}
 			count := v
+			if count < 0 {
+				return fmt.Errorf("Byte count is negative: %s", string(command))
+			}
 
+			// the data block is exactly count bytes followed by \r\n,
+			// however it arrives; keep its first 80 bytes for the event
 			buff := make([]byte, 80)
+			if count < len(buff) {
+				buff = buff[:count]
+			}
 
-			n, err := b.Read(buff)
-			if err != nil {
+			if _, err := io.ReadFull(b, buff); err != nil {
 				return err
 			}
 
-			buff = buff[:n]
-
-			// discard rest of payload
-			count -= n
-
-			b.Discard(count)
+			// discard rest of payload and its terminator
+			if _, err := io.CopyN(ioutil.Discard, b, int64(count-len(buff))+2); err != nil {
+				return err
+			}
 
 			s.ch.Send(event.New(
 				EventOptions,
